@@ -61,6 +61,11 @@ def build_world(w, tab, io_lines, posval, ioval):
         del w.files[k]
     w.devs = {"/dev/null": 0x103}
     w.dirs.add("/v/dir")
+    # decoys in the CALLER's current directory, named like the link targets that are not absolute
+    # paths: whatever the caller's directory holds, such descriptors are no regular files
+    for t in sim_c14.TARGETS.values():
+        if not t.startswith("/"):
+            w.files[w.caller_cwd + "/" + t] = b"decoy"
     p = w.spawn(PID, comm=b"holder", ppid=1, start=500)
     st = sim_c14.reset(w, PID)
     p.fds = {}
@@ -674,7 +679,7 @@ def need(ctx, what, req, stats):
         # does; when the code already disagrees the disagreement is the verdict
         ctx.notes.append("%s never exercised %s" % (what, missing))
         return
-    raise core.Machinery("vacuity: %s never exercised %s" % (what, missing))
+    core.vacuity("%s never exercised %s" % (what, missing))
 
 
 def observe(ctx, c):
